@@ -79,7 +79,9 @@ def check_framing(ctx, shapes):
                 bad.append((None, f'unit {u["unit"]}: End marker / trailer malformed')); continue
             body = b[13:-13]
             chk = z3.simplify(z3.Concat(*reversed(tail[1:9])))
+            J._mode['register'] = False
             want = J.H(body)
+            J._mode['register'] = True
             r, m = ctx.sat(J.injectivity_axioms() + [chk != want], ob)
             if r != z3.unsat:
                 bad.append((None, f'unit {u["unit"]}: the stored checksum is not the checksum of the item bytes written'))
@@ -136,6 +138,7 @@ def check_cuts(ctx, shape, idx, step=1):
         cutu = units[-1]
         c = cutu['start'] + max(1, (cutu['end'] - cutu['start']) // 2)
         boundary = cutu['start']
+        J._mode['register'] = True
         fresh, fdesc = J.write_unit(ctx, ('raw', 0, 'Value', 1, 1), 9, KS)
         image2 = image[:boundary] + fresh
         outs = J.run_reader(ctx, image2, len(image2) + 24, len(image2), max_batches=len(units) + 2)
